@@ -135,6 +135,11 @@ def _run_format(job):
         # loading must not consume or modify the serialized data: the same serialized object loads again to the same dataset
         obs += _maze_obligations(MazeDataset.load(data), terms, n, f"{fmt}, second load of the same serialized data")
         obs.append((f"{fmt}: configuration equal to the (metadata-collected) original", z3.BoolVal(_cfg_js(loaded.cfg) == _cfg_js(ds.cfg) and loaded.cfg == ds.cfg)))
+        # serializing the (now metadata-collected) dataset again must not change its configuration any further, and must load to the same configuration
+        cfg_after_first = _cfg_js(ds.cfg)
+        again = MazeDataset.load(getattr(ds, FORMATS[fmt])())
+        obs.append((f"{fmt}: a second serialization leaves the configuration as it was and loads to the same configuration",
+                    z3.BoolVal(_cfg_js(ds.cfg) == cfg_after_first and _cfg_js(again.cfg) == cfg_after_first)))
         if fmt != "full":
             obs.append((f"{fmt}: collected generation metadata keeps its keys and counts", z3.BoolVal(_collected_ok(loaded.generation_metadata_collected, lengths, n))))
         else:
